@@ -166,9 +166,10 @@ def resolve_plan(spec, plan_calls, T):
             kind = "diff_log"
         if kind in ("level",):
             kind = "none"
+        shift = int(call.get("shift", -1) or -1) if kind in E.LAGGED_TRANSFORMS else -1
         for n in names:
             for k in dates:
-                cells[(n, int(k))] = (kind, bool(call.get("when_data")))
+                cells[(n, int(k))] = (kind, bool(call.get("when_data")), shift)   # shift: the plan transform's own reference lag
     return cells
 
 
@@ -232,7 +233,7 @@ def check(spec, params, T, inp, out, cells, nv, shocks_from_data=True, order="da
             exo = False
             datum = E.NAN
             if cell is not None:
-                kind, wd = cell
+                kind, wd = cell[0], cell[1]
                 datum = inp.get(E.PLAN_PREFIX[kind] + x, k, v)
                 if datum != datum:
                     if not wd:
@@ -241,13 +242,16 @@ def check(spec, params, T, inp, out, cells, nv, shocks_from_data=True, order="da
                         continue
                 else:
                     exo = True
-            need_lag = lagged or (exo and cell[0] in E.LAGGED_TRANSFORMS)
+            plan_lagged = exo and cell[0] in E.LAGGED_TRANSFORMS
+            plan_shift = (cell[2] if len(cell) > 2 else -1) if plan_lagged else -1
+            need_lag = lagged or plan_lagged
             reads_undefined = any((n, k + s) in undefined for n, s in static_refs[i])
-            lag_undefined = need_lag and (x, k - 1) in undefined
+            lag_undefined = (lagged and (x, k - 1) in undefined) or (plan_lagged and (x, k + plan_shift) in undefined)
             st = E.Scale()
             rhs = E.ev(eq["rhs"], read, P, st)
             x_now = st.see(read(x, 0))
             x_lag = st.see(read(x, -1)) if need_lag else 0.0
+            x_lag_plan = st.see(read(x, plan_shift)) if plan_lagged else x_lag   # reference value of the plan transform
             if ident:
                 r_out = 0.0
                 r_in = 0.0
@@ -263,18 +267,18 @@ def check(spec, params, T, inp, out, cells, nv, shocks_from_data=True, order="da
 
             if exo:
                 kind = cell[0]
-                if lag_undefined or not _finite(x_lag):
+                if lag_undefined or not _finite(x_lag) or not _finite(x_lag_plan):
                     rep.inconc["exogenized:lag-undefined"] += 1
                     undefined.add((x, k))
                     continue
-                implied = E.implied_level(kind, datum, x_lag)
+                implied = E.implied_level(kind, datum, x_lag_plan)
                 if not _finite(implied):
                     rep.inconc["exogenized:implied-level-not-finite"] += 1
                     undefined.add((x, k))
                     continue
                 opclass = f"exogenized:{kind}" + ("?" if cell[1] else "") + f"->{tr}"
-                tol_x = RTOL * (1.0 + abs(implied) + abs(x_lag) + abs(datum))
-                rep.cells["exogenized-level:" + kind] += 1
+                tol_x = RTOL * (1.0 + abs(implied) + abs(x_lag_plan) + abs(datum))
+                rep.cells["exogenized-level:" + kind + ("" if plan_shift == -1 else ":shift")] += 1
                 if not abs(x_now - implied) <= tol_x:
                     rep.problem(f"exogenized:lhs-not-implied-value:{kind}",
                                 f"{x}[k={k}] = {x_now!r} but the exogenized {kind} datum {datum!r} implies {implied!r}",
